@@ -1,5 +1,5 @@
 (* C01 — N-Triples, N-Quads (and RDF/JSON) encoders round-trip every dataset. *)
-From RK Require Import Base Utf8 NQ NQProofs.
+From RK Require Import Base Utf8 Runes NQ NQProofs NQRoundTrip.
 
 (* ASCII option: every byte of the encoded document is below 0x80, for all datasets; the parts the
    writers copy verbatim from the caller (blank node labels of a custom labeller, language tags) are
@@ -16,3 +16,33 @@ Example C01_ascii_example :
                                  (TLit [233%N; 10%N; 34%N; 128512%N] xsd_string None) None])
   = s2b "<http://e/\u00E9> <http://e/p> ""\u00E9\n\""\U0001F600"" ." ++ [10%N].
 Proof. vm_compute. reflexivity. Qed.
+
+(* the round trip: for every list of well-formed quads (absolute IRIs of scalar code points, blank node labels of the
+   N-Triples grammar, literals which are plain, language-tagged with a well-formed tag, or typed with an IRI other than
+   the two language datatypes; a graph name only in N-Quads), the decoder reads the written text back as exactly those
+   quads, in order, and ends without an error — with the ASCII option on and off, for documents of any length. The
+   text is taken as the runes the reader delivers (dr pairs a rune with its UTF-8 size). *)
+Theorem C01_decode_encode : forall ascii nq qs, Forall (quad_ok nq) qs ->
+  exists stmts, decode nq (drs (encode ascii qs)) TEof = (stmts, VOk) /\ map st_quad stmts = qs.
+Proof. exact decode_encode. Qed.
+Print Assumptions C01_decode_encode.
+
+(* non-vacuity: an IRI with a non-ASCII code point, a blank node, a language-tagged and a typed literal, a graph name *)
+Example C01_quads_ok :
+  Forall (quad_ok true)
+    [Quad (TIri (s2b "http://e/" ++ [233%N])) (TIri (s2b "http://e/p")) (TLit [233%N; 10%N; 34%N; 128512%N] xsd_string None) None;
+     Quad (TBlank (s2b "b.0")) (TIri (s2b "urn:x:p")) (TLit (s2b "chat") rdf_langString (Some (s2b "fr-CA"))) (Some (TIri (s2b "http://e/g")));
+     Quad (TIri (s2b "http://e/s")) (TIri (s2b "http://e/p")) (TLit (s2b "5") (s2b "http://www.w3.org/2001/XMLSchema#integer") None) (Some (TBlank (s2b "g")))].
+Proof.
+  assert (S : forall l, forallb is_scalar l = true -> scalars l).
+  { intros l H. unfold scalars. apply Forall_forall. intros x Hx. rewrite forallb_forall in H. apply H. exact Hx. }
+  repeat (apply Forall_cons); try apply Forall_nil.
+  - unfold quad_ok, term_ok, iri_ok, lit_ok. cbn [q_s q_p q_o q_g is_lit is_iri].
+    repeat split; try (apply S; reflexivity); try reflexivity. left. split; reflexivity.
+  - unfold quad_ok, term_ok, iri_ok, lit_ok. cbn [q_s q_p q_o q_g is_lit is_iri].
+    repeat split; try (apply S; reflexivity); try reflexivity.
+    right. left. split; [reflexivity|]. eexists. split; reflexivity.
+  - unfold quad_ok, term_ok, iri_ok, lit_ok. cbn [q_s q_p q_o q_g is_lit is_iri].
+    repeat split; try (apply S; reflexivity); try reflexivity.
+    right. right. repeat split; try reflexivity. apply S. reflexivity.
+Qed.
